@@ -281,6 +281,13 @@ bool XmlNode::equals(const XmlNodePtr &node) const
 
 XmlNodePtr XmlNode::firstChild() const
 {
+    // Note: the "children" of an entity reference are the declaration of the
+    //       entity, which is not part of the tree of the document.
+
+    if (mPimpl->mXmlNodePtr->type == XML_ENTITY_REF_NODE) {
+        return nullptr;
+    }
+
     xmlNodePtr child = mPimpl->mXmlNodePtr->children;
     XmlNodePtr childHandle = nullptr;
     while (child != nullptr) {
